@@ -112,6 +112,31 @@ struct CaseRun {
       if (AJ::measureMsgPack(*x.docs[d]) != s2.size()) viol("observable", "measureMsgPack != serializeMsgPack length");
       bool eq = (*x.docs[d] == *x.docs[d]); (void)eq;
     }
+    // writes through unbound handles, null keys and null string operands must change nothing, whatever the state of the documents
+    // (their boolean results are not judged: don't-care 15)
+    if (r.chance(1, 6)) {
+      AJ::JsonDocument& D = *x.docs[(size_t)r.below(x.docs.size())];
+      AJ::JsonArray ua; AJ::JsonObject uo; AJ::JsonVariant uv;
+      ua.add(1); ua.add("s"); ua.add<AJ::JsonObject>(); ua.remove(0); ua.remove(ua.begin()); ua.clear(); (void)ua[0].isNull(); ua[3] = 5; ua[1]["k"] = 2;
+      uo["k"] = 1; uo.remove("k"); uo.remove(uo.begin()); uo.clear(); uo[std::string("k")].to<AJ::JsonArray>(); uo["a"][2] = true;
+      uv.set(1); uv.set(std::string("copied")); uv.add(2.5); uv["a"]["b"] = 3; uv.to<AJ::JsonArray>(); uv.clear(); uv.remove(0); uv.remove("a");
+      uv.set(AJ::MsgPackBinary("ab", 2)); uv.set(AJ::serialized("1")); uv.set(D.as<AJ::JsonVariantConst>());
+      bool sane = ua.isNull() && ua.size() == 0 && ua.nesting() == 0 && ua.begin() == ua.end() && uo.isNull() && uo.size() == 0 && uo.begin() == uo.end() && uv.isNull() && uv.isUnbound();
+      if (!sane) viol("observable", "an unbound JsonArray / JsonObject / JsonVariant does not read as empty / null after writes through it");
+      // null keys: nothing is looked up, nothing is created
+      bool n1 = D[(const char*)nullptr].isNull(), n2 = D[AJ::JsonString()].isNull();
+      D[(const char*)nullptr] = 1; D[(char*)nullptr] = "x"; D.remove((const char*)nullptr); D[AJ::JsonString()] = 2;
+      D.as<AJ::JsonVariant>()[(const char*)nullptr].set(1);
+      if (!n1 || !n2) viol("observable", "a member looked up with a null key is not null");
+      // unbound container handles equal only unbound handles
+      AJ::JsonVariantConst cv = D.as<AJ::JsonVariantConst>();
+      bool ea = AJ::JsonArrayConst() == cv.as<AJ::JsonArrayConst>(), ea2 = cv.as<AJ::JsonArrayConst>() == AJ::JsonArrayConst();
+      bool eo = AJ::JsonObjectConst() == cv.as<AJ::JsonObjectConst>(), eo2 = cv.as<AJ::JsonObjectConst>() == AJ::JsonObjectConst();
+      if (ea != !cv.is<AJ::JsonArrayConst>() || ea2 != ea) viol("observable", "unbound JsonArrayConst == document's array handle is " + std::to_string(ea) + "/" + std::to_string(ea2));
+      if (eo != !cv.is<AJ::JsonObjectConst>() || eo2 != eo) viol("observable", "unbound JsonObjectConst == document's object handle is " + std::to_string(eo) + "/" + std::to_string(eo2));
+      if (!(AJ::JsonArrayConst() == AJ::JsonArrayConst()) || !(AJ::JsonObjectConst() == AJ::JsonObjectConst())) viol("observable", "two unbound container handles do not compare equal");
+      c.count("null_operand_probes");
+    }
     // read-only operations change nothing
     if (x.alloc_calls() != calls0) viol("read-only-op-called-allocator", "observation (is/as/iteration/size/nesting/serialize/measure/compare) called the allocator " + std::to_string(x.alloc_calls() - calls0) + " times");
     for (size_t d = 0; d < x.docs.size(); d++) {
